@@ -15,27 +15,34 @@ import (
 // C04: VP8 (lossy) and ALPH decoding returns the samples the format defines.
 
 type c04Case struct {
-	Source string // gen | gen+alph | libwebp
+	Source string // gen | gen+alph | gen+alphl | libwebp
 	Prog   *gen.VP8Prog
 	// ALPH for gen+alph: header byte + raw plane
 	AlphFilter int
 	AlphPre    int
 	AlphSeed   uint64
 	AlphClass  string
+	AlphProg   *gen.VP8LProg // gen+alphl: VP8L-compressed alpha plane (alpha = green channel)
 	// libwebp source
 	Img     *gen.Img
 	Quality int
 }
 
 func genC04(t *rapid.T) *c04Case {
-	c := &c04Case{Source: rapid.SampledFrom([]string{"gen", "gen", "gen", "gen+alph", "libwebp"}).Draw(t, "source")}
+	c := &c04Case{Source: rapid.SampledFrom([]string{"gen", "gen", "gen", "gen+alph", "gen+alphl", "libwebp"}).Draw(t, "source")}
 	max := 56
 	if tierThorough() {
 		max = 120
 	}
 	switch c.Source {
-	case "gen", "gen+alph":
+	case "gen", "gen+alph", "gen+alphl":
 		c.Prog = gen.DrawVP8(t, max)
+		if c.Source == "gen+alphl" {
+			c.AlphFilter = rapid.IntRange(0, 3).Draw(t, "alphFilter")
+			c.AlphPre = rapid.IntRange(0, 1).Draw(t, "alphPre")
+			c.AlphProg = gen.DrawVP8L(t, 8)
+			c.AlphProg.W, c.AlphProg.H = c.Prog.W, c.Prog.H
+		}
 		if c.Source == "gen+alph" {
 			c.AlphFilter = rapid.IntRange(0, 3).Draw(t, "alphFilter")
 			c.AlphPre = rapid.IntRange(0, 1).Draw(t, "alphPre")
@@ -53,9 +60,15 @@ func checkC04(c *c04Case, o *core.Obs) error {
 	var parts *stillParts
 	sig := ""
 	switch c.Source {
-	case "gen", "gen+alph":
+	case "gen", "gen+alph", "gen+alphl":
 		bs := c.Prog.Build()
 		p := &stillParts{Bitstream: bs, W: c.Prog.W, H: c.Prog.H}
+		if c.Source == "gen+alphl" {
+			ls, _ := c.AlphProg.Build()
+			alph := append([]byte{byte(1 | c.AlphFilter<<2 | c.AlphPre<<4)}, ls[5:]...) // headerless VP8L stream
+			p.Alph, p.HasAlph = alph, true
+			p.File = xref.MinimalVP8X(alph, bs, c.Prog.W, c.Prog.H)
+		}
 		if c.Source == "gen+alph" {
 			plane := gen.RenderContent(c.Prog.W, c.Prog.H, "flat", c.AlphClass, c.AlphSeed)
 			alph := make([]byte, 1+c.Prog.W*c.Prog.H)
@@ -65,7 +78,7 @@ func checkC04(c *c04Case, o *core.Obs) error {
 			}
 			p.Alph, p.HasAlph = alph, true
 			p.File = xref.MinimalVP8X(alph, bs, c.Prog.W, c.Prog.H)
-		} else {
+		} else if c.Source == "gen" {
 			p.File = xref.Simple("VP8 ", bs)
 		}
 		parts = p
